@@ -129,6 +129,12 @@ func RunKit(run *ev.Run, mounting string) {
 	outcomes = append(outcomes, outcome{"panic", func() kit.Outcome { return kit.Outcome{DoPanic: true, Panic: "something went wrong 50%"} }})
 	outcomes = append(outcomes, outcome{"unserializable-entity", func() kit.Outcome { return kit.Outcome{Unserializable: true} }})
 	outcomes = append(outcomes, outcome{"panic-while-serializing", func() kit.Outcome { return kit.Outcome{Explode: true} }})
+	// sizes: nothing in the statement allows an error to be cut short because it is long
+	big := strings.Repeat("m", 70000) + " end-of-message"
+	outcomes = append(outcomes, outcome{"error-response-large-message", func() kit.Outcome {
+		return kit.Outcome{Err: &common.ErrorResponse{Status: p32(422), Message: ps(big), StackTrace: ps(strings.Repeat("at x.y(z)\n", 20000))}}
+	}})
+	outcomes = append(outcomes, outcome{"plain-error-large", func() kit.Outcome { return kit.Outcome{Err: errors.New(big)} }})
 	for mask := 0; mask < 16; mask++ {
 		mask := mask
 		outcomes = append(outcomes, outcome{fmt.Sprintf("error-response-%02d", mask), func() kit.Outcome { return kit.Outcome{Err: errSubset(mask)} }})
@@ -229,7 +235,7 @@ func RunKit(run *ev.Run, mounting string) {
 				}
 				run.Count(GENERATION+".kit.error_object_snapshots", 1)
 			default:
-				text := map[string]string{"plain-error": "disk 100% full: \"sda\" é", "panic": "something went wrong 50%", "unserializable-entity": "cannot be serialized"}[oc.name]
+				text := map[string]string{"plain-error": "disk 100% full: \"sda\" é", "panic": "something went wrong 50%", "unserializable-entity": "cannot be serialized", "plain-error-large": big}[oc.name]
 				switch {
 				case oc.name == "typed-nil" && !m.returnsEntity,
 					(oc.name == "unserializable-entity" || oc.name == "panic-while-serializing") && !m.returnsEntity && m.kind != "get_all" && m.kind != "finder":
